@@ -183,7 +183,7 @@ func runC13(c *Ctx) {
 		"then keep fresh snapshots, apply further events (joins, parts, nick changes, modes, NAMES, kicks) and compare the kept snapshots with their earlier rendering; non-trivial = >= 2 users and >= 1 channel tracked; distinct = distinct history"
 	for i := 0; i < 120*c.Scale; i++ {
 		in := map[string]string{"nick": "me", "check": "c13"}
-		steps := []string{"R:srv 001 me :Welcome", "R:srv 005 me PREFIX=(qaohv)~&@%+ CHANMODES=beI,k,l,imnpst :are supported by this server"}
+		steps := []string{"R:srv 001 me :Welcome", "R:srv 005 me PREFIX=(qaohv)~&@%+ CHANMODES=beI,k,l,imnpst" + c.Rng.Pick([]string{"", " STATUSMSG=@+", " STATUSMSG=~&@%+ CHANTYPES=#&"}) + " :are supported by this server"}
 		nicks := []string{"bob", "Carl", "dave", "Eve[1]", "zed"}
 		chans := []string{"#a", "#b", "#c"}
 		ev := func() string {
